@@ -145,6 +145,9 @@ func (b *RequestMatcherBuilder) addFallback(fallbackOutbound config.FunctionOrSt
 
 func (b *RequestMatcherBuilder) Build() (matcher *RequestMatcher, err error) {
 	var m RequestMatcher
+	if len(b.rules) > consts.MaxMatchSetLen {
+		return nil, fmt.Errorf("too many dns request routing match sets: %v exceeds the limit %v", len(b.rules), consts.MaxMatchSetLen)
+	}
 	// Build domainMatcher
 	m.domainMatcher = domain_matcher.NewAhocorasickSlimtrie(b.log, consts.MaxMatchSetLen)
 	for _, domains := range b.simulatedDomainSet {
